@@ -38,6 +38,11 @@ RULE = ("genomes of 1..4 chromosomes (sizes 0..6; names where one is a prefix of
         "first with one genome's intervals and then with the other's (a cache keyed by the first call). Narrow coordinate "
         "columns (int8/uint8/int16/int32, as BAM intervals or user arrays have) on genomes just longer than the dtype's range, "
         "through every op, and a genome with a chromosome of almost 2**31 bases in front (op hugegenome, run-length tracks). "
+        "Round 6: two genome objects with the SAME names in the same order but another split of the length (same total and "
+        "different total): mask & mask, track[mask], pile-up + pile-up must refuse, a track indexed with the other genome's "
+        "intervals gives the values where the intervals fit or refuses; GlobalOffset.from_local_interval / "
+        "start_ends_from_intervals with the documented keyword do_clip (True and False) on entries overhanging chromosomes "
+        "that are not the last one (op globalise: global starts/stops and the way back through to_local_interval). "
         "Non-trivial = "
         ">= 2 included chromosomes and some entry touches a chromosome end or position 0")
 EXHAUSTIVE = {"quick": False, "thorough": False}
@@ -71,7 +76,10 @@ MANIFEST = {
             "completeness: pile-up/mask/extraction fail exactly on entries outside their chromosome (pileup_none_iff); the "
             "searchsorted model is pinned as a count over sorted prefix sums (searchsorted_is_count). Merge (no hypothesis, "
             "merge_checked_iff): a result exactly when all entries are inside their chromosomes and in genome order, and then "
-            "the per-chromosome merge, otherwise an error. Older statements: Merge: the shipped rule (merge in concatenated coordinates) is refuted in Lean with the boundary-"
+            "the per-chromosome merge, otherwise an error. Globalisation of intervals with or without do_clip "
+            "(globalise_clip_own_chromosome, globalise_none_iff): the global interval lies inside the own chromosome's global range, "
+            "to_local_interval returns the entry cut at its own chromosome size, refusal exactly outside; clipping at the genome "
+            "end instead is refuted (globalise_genome_end_unsound). Older statements: Merge: the shipped rule (merge in concatenated coordinates) is refuted in Lean with the boundary-"
             "touching witness, the repaired per-chromosome rule is proved equal to the per-chromosome single-contig merge. "
             "Generated obligations: the real GenomicIntervalsFull.clip / extended_to_size / get_location and Geometry.clip / "
             "extend_to_size are executed on symbolic columns every run and the recorded expressions (Gen/C10.lean) are proved equal "
@@ -309,7 +317,20 @@ def extra_evidence():
 # ------------------------------------------------------------------ helpers shared by impl (names) and generators
 
 def _ign(c):
-    return [bool(c.get("filt", True)) and "_" in n for n in c["names"]]
+    f = c.get("filt", True)
+    if isinstance(f, list):                            # a caller-supplied filter function: these names are ignored
+        return [n in f for n in c["names"]]
+    return [bool(f) and "_" in n for n in c["names"]]
+
+
+def _filter_fn(c):
+    """the filter_function handed to Genome.from_dict / GenomeContext.from_dict"""
+    from bionumpy.genomic_data.genome_context import ignore_underscores
+    f = c.get("filt", True)
+    if isinstance(f, list):
+        ignored = set(f)
+        return lambda name: name not in ignored
+    return ignore_underscores if f else None
 
 
 def _rank(ign):
@@ -373,9 +394,8 @@ def _mk_intervals(c, stranded):
 
 def _genome(c):
     import bionumpy as bnp
-    from bionumpy.genomic_data.genome_context import ignore_underscores
     d = dict(zip(c["names"], c["sizes"]))
-    return bnp.Genome.from_dict(d, filter_function=ignore_underscores if c.get("filt", True) else None)
+    return bnp.Genome.from_dict(d, filter_function=_filter_fn(c))
 
 
 def _incl_names(c):
@@ -546,13 +566,13 @@ def _call(c):
     if c.get("path", "mem") != "mem":
         return _call_stream(c)
     if op == "lookup":
-        from bionumpy.genomic_data.genome_context import GenomeContext, ignore_underscores
+        from bionumpy.genomic_data.genome_context import GenomeContext
         from bionumpy.encoded_array import as_encoded_array
-        ctx = GenomeContext.from_dict(dict(zip(c["names"], c["sizes"])), ignore_underscores if c.get("filt", True) else None)
+        ctx = GenomeContext.from_dict(dict(zip(c["names"], c["sizes"])), _filter_fn(c))
         return {"idx": _ints(as_encoded_array(list(c["queries"]), ctx.encoding).raw())}
     if op in ("l2g", "g2l"):
-        from bionumpy.genomic_data.genome_context import GenomeContext, ignore_underscores
-        ctx = GenomeContext.from_dict(dict(zip(c["names"], c["sizes"])), ignore_underscores if c.get("filt", True) else None)
+        from bionumpy.genomic_data.genome_context import GenomeContext
+        ctx = GenomeContext.from_dict(dict(zip(c["names"], c["sizes"])), _filter_fn(c))
         go = ctx.global_offset
         if op == "l2g":
             g = go.from_local_coordinates([c["names"][x[0]] for x in c["pts"]], np.array([x[1] for x in c["pts"]], dtype=int))
@@ -785,9 +805,9 @@ def agree(c, got, exp):
     if c["op"] == "xgenome":
         # two genome objects with different chromosome orders: the right values, or an explicit refusal
         exp = dict(exp)
-        refusal_ok = exp.pop("refusal_ok")
+        refusal_ok = exp.pop("refusal_ok", False)
         if isinstance(got, dict) and got.get("err") == "raised":
-            return refusal_ok
+            return refusal_ok or exp.get("err") == "raised"
         return core.canon(got) == core.canon(exp)
     return _agree(c, got, exp)
 
@@ -942,8 +962,26 @@ def _pair_cases(top):
                     yield dict(base, op="extract", iv=[[a[0], a[1], a[2], False], b], stranded=True, vals=vals)
 
 
+_DEFAULT_FILTER_ONLY = {"files", "hugegenome", "ctor", "xgenome", "sgeometry", "seqviews", "gjaccard", "fromtrack"}
+
+
 def cases(tier, rng):
     _tmpdir()
+    k = 0
+    for c in _cases_all(tier, rng):
+        yield c
+        # the same case under a CALLER-SUPPLIED filter_function (keyword of Genome.from_dict / GenomeContext.from_dict):
+        # the '_' names are renamed so that the default filter would keep them, and the filter ignores them by name
+        if c.get("filt") is True and c.get("via", "genome") == "genome" and c["op"] not in _DEFAULT_FILTER_ONLY \
+                and any("_" in n for n in c["names"]) and "queries" not in c:
+            k += 1
+            if k % 2 == 0:
+                names = [n.replace("_", "X") for n in c["names"]]
+                if len(set(names)) == len(names):
+                    yield dict(c, names=names, filt=[n for n, o in zip(names, c["names"]) if "_" in o])
+
+
+def _cases_all(tier, rng):
     yield from c10_extra.cases(tier, rng)
     yield from _cases_main(tier, rng)
 
